@@ -62,6 +62,26 @@ fn gen_op(rng: &mut StdRng, d: &Driver, profile: &str) -> Value {
             let mk = if enc == "json" { mutate::JSON_MUTS[rng.gen_range(0..mutate::JSON_MUTS.len())] } else { mutate::TOKEN_MUTS[rng.gen_range(0..mutate::TOKEN_MUTS.len())] };
             return json!({"op": "deser_mut", "w": w, "dst": dead[0], "enc": enc, "mkind": mk, "mpos": rng.gen_range(0..4000)});
         }
+        if profile == "untrusted" && !dead.is_empty() && n_live > 0 && rng.gen_bool(0.55) {
+            // structured mutations (vocabulary of spec/Serde.tla): 1..3 of them, small values so that
+            // collisions with existing slots / identifiers are frequent
+            let kinds = ["row_index", "row_gen", "row_del", "row_dup", "arch_len", "arch_bits", "arch_del", "arch_dup",
+                         "alloc_len", "free_del", "free_dup", "free_push", "free_index", "free_gen"];
+            let nm = [1, 1, 2, 2, 3][rng.gen_range(0..5)];
+            let mut muts = Vec::new();
+            for _ in 0..nm {
+                let k = kinds[rng.gen_range(0..kinds.len())];
+                let v = if k == "arch_bits" { [rng.gen_range(0..512), rng.gen_range(0..1024), 512, 513, 3][rng.gen_range(0..5)] } else { rng.gen_range(0..(n_issued + 2)) };
+                muts.push(json!({"k": k, "a": rng.gen_range(1..5), "r": rng.gen_range(1..5), "v": v, "g": rng.gen_range(0..3)}));
+            }
+            if rng.gen_bool(0.35) {
+                // the coordinated pair: a row takes another slot's index, the allocator section is adjusted
+                muts = vec![json!({"k": "row_index", "a": rng.gen_range(1..4), "r": rng.gen_range(1..4), "v": rng.gen_range(0..(n_issued + 1)), "g": 0}),
+                            if rng.gen_bool(0.5) { json!({"k": "alloc_len", "a": 0, "r": 0, "v": n_issued.saturating_sub(1), "g": 0}) }
+                            else { json!({"k": "free_push", "a": 0, "r": 0, "v": rng.gen_range(0..(n_issued + 1)), "g": rng.gen_range(0..3)}) }];
+            }
+            return json!({"op": "deser_struct", "w": w, "dst": dead[0], "muts": muts});
+        }
         if profile == "untrusted" && dead.is_empty() && rng.gen_bool(0.3) {
             return json!({"op": "drop", "w": live[rng.gen_range(0..live.len())]});
         }
